@@ -382,7 +382,10 @@ def damage(data: bytes, rng: random.Random) -> Tuple[bytes, str]:
                        "table_fields_garbled", "table_truncated_empty"])
     rows = data[xs:ts].split(b"\n")  # ['xref', '0 N', row..., '']
     if kind == "startxref_wrong":
-        newpos = rng.choice([0, 1, 7, xs - 1, xs + 1, xs + 3, len(data), len(data) + 100, rng.randrange(len(data)), 99999999])
+        # also: offsets of integer tokens close to the end of the file (the reader then takes them for the header of a
+        # cross-reference stream and runs into the end of the file while reading it)
+        near_end = [sx + 10, data.rindex(b"/Size ") + 6, ts - 20, ts - 40, ts - 9]
+        newpos = rng.choice([0, 1, 7, xs - 1, xs + 1, xs + 3, len(data), len(data) + 100, rng.randrange(len(data)), 99999999] + near_end)
         return data[:sx] + b"startxref\n%d\n%%%%EOF\n" % newpos, kind
     if kind == "startxref_missing":
         return rng.choice([data[:sx], data[:sx] + b"%%EOF\n"]), kind
